@@ -3,7 +3,25 @@
   reader (`Rd`) and writer (`Wr`) over byte lists, `Duration` arithmetic.
 -/
 import RenetVerif.Base.Res
+import RenetVerif.Generated.Consts
 namespace RenetVerif.Netcode
+
+/-! ### constants derived from the generated ones -/
+namespace C
+export RenetVerif.C (NETCODE_MAX_CLIENTS NETCODE_MAX_PENDING_FACTOR NETCODE_MAX_PACKET_BYTES NETCODE_MAX_PAYLOAD_BYTES
+  NETCODE_KEY_BYTES NETCODE_MAC_BYTES NETCODE_USER_DATA_BYTES NETCODE_CHALLENGE_TOKEN_BYTES
+  NETCODE_CONNECT_TOKEN_XNONCE_BYTES NETCODE_CONNECT_TOKEN_PRIVATE_BYTES NETCODE_SEND_RATE_NS
+  NETCODE_REPLAY_BUFFER_SIZE NETCODE_GLOBAL_SEQUENCE_START_SHIFT NETCODE_ADDRESS_NONE NETCODE_ADDRESS_IPV4
+  NETCODE_ADDRESS_IPV6 NETCODE_TOKEN_MAX_ADDRESSES)
+/-- lib.rs `NETCODE_VERSION_INFO` = b"NETCODE 1.02\0" -/
+def NETCODE_VERSION_INFO : List UInt8 := [78, 69, 84, 67, 79, 68, 69, 32, 49, 46, 48, 50, 0]
+/-- lib.rs `NETCODE_MAX_PENDING_CLIENTS` -/
+def NETCODE_MAX_PENDING_CLIENTS : Nat := RenetVerif.C.NETCODE_MAX_CLIENTS * RenetVerif.C.NETCODE_MAX_PENDING_FACTOR
+/-- server.rs `connect_token_entries: [_; NETCODE_MAX_CLIENTS * 2]` -/
+def NETCODE_TOKEN_ENTRIES : Nat := RenetVerif.C.NETCODE_MAX_CLIENTS * 2
+/-- server.rs `global_sequence: 1 << 63` -/
+def NETCODE_GLOBAL_SEQUENCE_START : Nat := 2 ^ RenetVerif.C.NETCODE_GLOBAL_SEQUENCE_START_SHIFT
+end C
 
 /-- little-endian encoding of `n` into exactly `k` bytes (`to_le_bytes`, value taken mod 256^k) -/
 def leBytes (n : Nat) : Nat → Bytes
